@@ -61,7 +61,7 @@ func (e *Exec) enterLoop(li *loopInfo, phiVals map[ssa.Value]Val, st *State) {
 	} else {
 		var names []string
 		for n := range li.modset {
-			if n != "next" {
+			if n != "next" && !strings.HasPrefix(n, "alloc:") {
 				names = append(names, n)
 			}
 		}
@@ -255,10 +255,15 @@ func (p *Program) FuncModset(fn *ssa.Function) map[string]bool {
 		return ms
 	}
 	if modsetInProgress[fn] {
-		return map[string]bool{} // recursion: fixpoint approximated by the non-recursive part (same components)
+		// recursion: the components of the function in progress are being collected by its own activation; the result
+		// of every function between that activation and this point is incomplete and must not be cached
+		modsetRecursionHits++
+		return map[string]bool{}
 	}
 	modsetInProgress[fn] = true
 	defer delete(modsetInProgress, fn)
+	hits0 := modsetRecursionHits
+	outermost := len(modsetInProgress) == 1
 	ms := map[string]bool{}
 	if c := p.ContractOf(fn); c != nil && c.Flags["pure"] {
 		modsetCache[msKey{fn, opaqueStrings}] = ms
@@ -278,9 +283,15 @@ func (p *Program) FuncModset(fn *ssa.Function) map[string]bool {
 	for _, an := range fn.AnonFuncs {
 		_ = an
 	}
-	modsetCache[msKey{fn, opaqueStrings}] = ms
+	if outermost || modsetRecursionHits == hits0 {
+		// complete: either nothing below depended on a function still in progress, or this is the outermost activation
+		// (a cycle through it contributes exactly what this activation collects)
+		modsetCache[msKey{fn, opaqueStrings}] = ms
+	}
 	return ms
 }
+
+var modsetRecursionHits int
 
 func addStructComps(t types.Type, ms map[string]bool) {
 	st := t.Underlying().(*types.Struct)
@@ -313,6 +324,14 @@ func (p *Program) instrModsetF(in ssa.Instruction, ms, fr map[string]bool) {
 		tgt[mapValComp(k, v)] = true
 	case *ssa.Alloc, *ssa.MakeMap, *ssa.MakeSlice, *ssa.MakeInterface:
 		ms["next"] = true
+		if a, ok := x.(*ssa.Alloc); ok {
+			// which struct types the function allocates (pseudo component, used by the closed_alloc flag)
+			if pt, ok := a.Type().Underlying().(*types.Pointer); ok {
+				if _, ok := pt.Elem().Underlying().(*types.Struct); ok {
+					ms["alloc:"+typeKey(pt.Elem())] = true
+				}
+			}
+		}
 	case *ssa.Call:
 		if b, ok := x.Call.Value.(*ssa.Builtin); ok && b.Name() == "delete" {
 			if _, ok := x.Call.Args[0].(*ssa.MakeMap); ok {
